@@ -1,7 +1,7 @@
 #!/venv/bin/python
 """Self-test of the checkers, both ways (DESIGN.md section 5).
 
-  selftest/run.py [PROP ...] [--jobs N] [--kinds mutant,twin,seed,auto] [--keep]
+  selftest/run.py [PROP ...] [--jobs N] [--kinds mutant,twin,seed,auto] [--merge]   (--merge: a partial run replaces its rows in RESULT.json)
 
 For each variant a scratch copy of /repo/src is made under $TMPDIR, the variant is applied, the property's quick check
 is run against the copy (VERIF_REPO), and the copy is removed.  /repo itself is never modified.
@@ -175,6 +175,8 @@ def main(argv: list[str]) -> int:
     jobs = 14
     kinds = {'mutant', 'twin', 'seed', 'auto', 'cross', 'revert'}
     props = []
+    merge = '--merge' in argv
+    argv = [a for a in argv if a != '--merge']
     it = iter(argv)
     for a in it:
         if a == '--jobs':
@@ -191,6 +193,12 @@ def main(argv: list[str]) -> int:
         for r in pool.imap_unordered(run_one, vs):
             rows.append(r)
             print('%-4s %-28s %-7s %-9s %5.1fs %s' % (r['prop'], r['name'], r['kind'], r['status'], r.get('wall_s', 0), '; '.join(r.get('reports', [])[:2]) or r.get('why', '') or '; '.join(r.get('errors', []))), flush=True)
+    this_run = list(rows)
+    if merge:
+        # a partial re-run replaces the rows it produced in the last full result
+        prev = json.load(open(os.path.join(V, 'selftest', 'RESULT.json')))
+        done = {(r['prop'], r['name']) for r in rows}
+        rows = rows + [r for r in prev['rows'] if (r['prop'], r['name']) not in done]
     rows.sort(key=lambda r: (r['prop'], r['name']))
     tally: dict[str, dict] = {}
     for r in rows:
@@ -211,8 +219,9 @@ def main(argv: list[str]) -> int:
                 t['alarmed'].append(r['name'] + ('(refused)' if r['status'] == 'refused' else ''))
     head = subprocess.run(['git', '-C', '/repo', 'rev-parse', '--short', 'HEAD'], capture_output=True, text=True).stdout.strip()
     full = set(props) == set(PROPS) and kinds >= {'mutant', 'twin', 'seed', 'auto'}
-    if full:
+    if full or merge:
         json.dump({'repo_head': head, 'wall_s': round(time.time() - t0, 1), 'tally': tally, 'rows': rows}, open(os.path.join(V, 'selftest', 'RESULT.json'), 'w'), indent=1)
+    rows = this_run
     bad = [r for r in rows if r['status'] in ('survived', 'alarmed', 'refused', 'error')]
     print('variants=%d killed=%d silent=%d unexpected=%d skipped=%d wall=%.0fs' % (len(rows), sum(r['status'] == 'killed' for r in rows), sum(r['status'] == 'silent' for r in rows), len(bad), sum(r['status'] == 'skipped' for r in rows), time.time() - t0))
     return 1 if bad else 0
